@@ -116,6 +116,7 @@ def gen_function(c: Contract, prop: str, bounded=None) -> FunctionReport:
         ex.cur_line = node.lineno
         if c.requires is not None:
             st.assume(ex.eval_contract(st, c.requires, dict(st.env)))
+        n_req = len(st.pc)        # (path condition up to here: type invariants of the inputs and `requires`)
         for ax in c.uses_axioms:
             anode, aparams = contract_ast(ax.fn)
             ann = ax.fn.__annotations__
@@ -139,6 +140,13 @@ def gen_function(c: Contract, prop: str, bounded=None) -> FunctionReport:
         s.set("timeout", 60000)      # one query per function; generous so that the verdict does not depend on machine load
         s.add(*pre_pc)
         r = s.check()
+        if r == z3.unknown and c.uses_axioms:
+            # the @assumed (definitional, quantified) statements defeat the model search: decide the satisfiability of the
+            # precondition proper, without them
+            s = z3.Solver()
+            s.set("timeout", 10000)
+            s.add(*pre_pc[:n_req])
+            r = s.check()
         ob = Obligation(name=f"{prop}/{c.key.replace(':', '.')}/vacuity[requires]", hyps=[], goal=None, kind="vacuity",
                         func=c.key, line=node.lineno)
         ob.status = "discharged" if r == z3.sat else ("failed" if r == z3.unsat else "unknown")
